@@ -128,9 +128,99 @@ func s3Requests(root *frame) []s3Req {
 	return out
 }
 
+// s3MutatingRequest classifies the request input types of the AWS SDK whose
+// request changes what a bucket holds. Read requests (Get*, Head*, List*,
+// Select*) cannot take away or replace what an earlier Store wrote.
+func s3MutatingRequest(inputType string) bool {
+	for _, p := range []string{"Delete", "Put", "Copy", "Create", "Upload", "Complete", "Abort", "Restore", "Write"} {
+		if strings.HasPrefix(inputType, p) {
+			return true
+		}
+	}
+	return false
+}
+
+// s3OtherRequests: every call anywhere in the S3 backend package that hands
+// a request input of the SDK to a callee outside the repository. The only
+// request that may change the bucket is the PutObject of Store (whose key and
+// body the clauses below pin): a DeleteObject "cleaning up" after a failed
+// put removes the node an earlier successful write of the same name left
+// there (content-addressed names are re-written all the time).
+func s3OtherRequests(c *Ctx, storeFns map[*ssa.Function]bool) {
+	P := c.P
+	for _, fn := range P.Funcs {
+		if fn.Pkg == nil || fn.Pkg.Pkg.Path() != ir.S3Path {
+			continue
+		}
+		for _, b := range fn.Blocks {
+			for _, ins := range b.Instrs {
+				ci, ok := ins.(ssa.CallInstruction)
+				if !ok {
+					continue
+				}
+				com := ci.Common()
+				if callee := ir.Callee(com); callee != nil && callee.Pkg != nil && callee.Pkg.Pkg.Path() == ir.S3Path {
+					continue // a helper of the package: its own calls are visited
+				}
+				for _, a := range com.Args {
+					pt, isPtr := a.Type().Underlying().(*types.Pointer)
+					if !isPtr {
+						continue
+					}
+					n, isNamed := types.Unalias(pt.Elem()).(*types.Named)
+					if !isNamed || n.Obj().Pkg() == nil || n.Obj().Pkg().Path() != awsS3Pkg || !strings.HasSuffix(n.Obj().Name(), "Input") {
+						continue
+					}
+					name := n.Obj().Name()
+					root := fn
+					for root.Parent() != nil {
+						root = root.Parent()
+					}
+					switch {
+					case name == "PutObjectInput" && (storeFns[root] || onlyCalledFrom(P, root, storeFns, 0)):
+						// the write itself (pinned below)
+					case name == "PutObjectInput":
+						c.Violation(fn, P.InstrPos(ins), "PutObject request outside Store",
+							"a function other than Store writes an object: only Store(name, bytes) may change what the bucket holds under prefix+name")
+					case s3MutatingRequest(name):
+						c.Violation(fn, P.InstrPos(ins), strings.TrimSuffix(name, "Input")+" request issued by the S3 backend",
+							"the backend issues a "+strings.TrimSuffix(name, "Input")+" request: besides the PutObject of Store nothing may change the bucket — a delete/copy/overwrite (also as error-path clean-up) can remove or replace the node an earlier successful Store of the same name left there")
+					default:
+						c.OK(P.InstrPos(ins), strings.TrimSuffix(name, "Input")+" request in "+ir.FuncName(fn), "a read request: cannot change what is stored", false)
+					}
+				}
+			}
+		}
+	}
+}
+
+// onlyCalledFrom: fn has callers, and every one of them (transitively, within
+// the repository) is one of the given functions.
+func onlyCalledFrom(P *ir.Program, fn *ssa.Function, roots map[*ssa.Function]bool, d int) bool {
+	cs := P.Callers[fn]
+	if len(cs) == 0 || d > 4 {
+		return false
+	}
+	for _, ci := range cs {
+		caller := ci.Parent()
+		for caller.Parent() != nil {
+			caller = caller.Parent()
+		}
+		if !roots[caller] && !onlyCalledFrom(P, caller, roots, d+1) {
+			return false
+		}
+	}
+	return true
+}
+
 func runS3KEY(c *Ctx) {
 	P := c.P
 	impls := backendImpls(c, ir.S3Path)
+	storeFns := map[*ssa.Function]bool{}
+	for _, b := range impls {
+		storeFns[b.store] = true
+	}
+	s3OtherRequests(c, storeFns)
 	for _, b := range impls {
 		st, _ := b.named.Underlying().(*types.Struct)
 		have := map[string]bool{}
